@@ -201,6 +201,28 @@ def run(case):
             fb = b if nd == 1 else [y for x in b for y in x]
             if len(fa) == len(fb) and not all(ref.close(x, y) for x, y in zip(fa, fb)):
                 res.fail('engines-differ', '%s=%r %s=%r with unique optimal paths' % (names[0], a, k, b))
+    # (iv') no initial average given: the routine picks one itself; unselected series still have no influence
+    oth = case['other']
+    S2 = [s if m else [x[:] if nd > 1 else x for x in oth] for s, m in zip(S, mask)]
+    if not all(mask):
+        res.cls('default-average,unselected-present')
+        if not mask[0]:
+            res.cls('default-average,first-unselected')
+        for name, fn in (('py.dba[c=None]', lambda d: dtw_barycenter.dba(d, None, mask=npmask, use_c=False, **kw)),
+                         ('c.dba[c=None]', lambda d: dtw_barycenter.dba(
+                             d, None, mask=npmask, use_c=True, **{k: (0 if v is None else v) for k, v in kw.items()})),
+                         ('loop.py[c=None]', lambda d: dtw_barycenter.dba_loop(
+                             d, c=None, max_it=case['max_it'], thr=0.001, mask=npmask, use_c=False, **kw)),
+                         ('loop.c[c=None]', lambda d: dtw_barycenter.dba_loop(
+                             d, c=None, max_it=case['max_it'], thr=0.001, mask=npmask, use_c=True,
+                             **{k: (0 if v is None else v) for k, v in kw.items()}))):
+            g1, e1 = libcall(fn, _cont(case, S))
+            g2, e2 = libcall(fn, _cont(case, S2))
+            if e1 or e2:
+                res.fail('%s:%s' % (name, e1 or e2), 'raised without an initial average')
+            elif _aslist(g1, nd) != _aslist(g2, nd):
+                res.fail(name + ':unselected', 'no initial average given: changing the unselected series changed the result: '
+                         '%r -> %r' % (_aslist(g1, nd), _aslist(g2, nd)))
     # (vi) the iterated loop
     for use_c in (False, True):
         lkw = kw if not use_c else {k: (0 if v is None else v) for k, v in kw.items()}
